@@ -24,7 +24,8 @@ CATALOGUE = {
     'nonfinite-int': MUST_RAISE, 'copy>255': MUST_RAISE, 'no-origin': MUST_RAISE, 'no-channel': MUST_RAISE,
     'no-frame': MUST_RAISE, 'frame-no-channels': MUST_RAISE, 'window': MUST_RAISE, 'zero-rows': MUST_RAISE,
     'empty-list': EITHER, 'ics': MUST_RAISE, 'ocs': MUST_RAISE, 'sul-seq': MUST_RAISE, 'sul-id-long': MUST_RAISE,
-    'hdr-id-long': MUST_RAISE,
+    'hdr-id-long': MUST_RAISE, 'dtime-range': MUST_RAISE, 'vrl-invalid': MUST_RAISE, 'hdr-seq': MUST_RAISE,
+    'hdr-ident': MUST_RAISE, 'uvari-nonint': MUST_RAISE,
 }
 
 
@@ -60,6 +61,17 @@ def invalidation(draw):
         inv['how'] = draw(st.sampled_from(['below-vrl', 'fraction', 'negative', 'string']))
     elif k == 'sul-seq':
         inv['v'] = draw(st.sampled_from([-1, -12, 10000, 123456]))
+    elif k == 'dtime-range':
+        inv['year'] = draw(st.sampled_from([1850, 1899, 2156, 2300]))
+    elif k == 'vrl-invalid':
+        inv['v'] = draw(st.sampled_from([19, 18, 0, -20, 21, 8191, 16385, 16386, 70000]))
+    elif k == 'hdr-seq':
+        inv['v'] = draw(st.sampled_from([0, -1, 10 ** 10, 10 ** 12]))
+    elif k == 'hdr-ident':
+        inv['v'] = draw(st.sampled_from(['', 'AB', '00']))
+    elif k == 'uvari-nonint':
+        inv['attr'], inv['v'] = draw(st.sampled_from([('file_number', 2.5), ('name_space_version', 0.1),
+                                                      ('descent_number', 7.25)]))
     return inv
 
 
@@ -208,6 +220,16 @@ def apply(spec, inv):
         spec['sul']['seq'] = inv['v']
     elif k == 'sul-id-long':
         spec['sul']['id'] = _txt(61 + sel % 5)
+    elif k == 'dtime-range':
+        ops[origins[0]]['attrs']['creation_time'] = {'v': {'$dt': f"{inv['year']}-06-15T12:00:00", 'tz': 0}, 'r': 'kw'}
+    elif k == 'vrl-invalid':
+        spec['sul']['vrl'] = inv['v']
+    elif k == 'hdr-seq':
+        lf.setdefault('hdr', {})['seq'] = inv['v']
+    elif k == 'hdr-ident':
+        lf.setdefault('hdr', {})['ident'] = inv['v']
+    elif k == 'uvari-nonint':
+        ops[origins[0]]['attrs'][inv['attr']] = {'v': inv['v'], 'r': 'kw'}
     elif k == 'hdr-id-long':
         lf.setdefault('hdr', {})['id'] = _txt(66 + sel % 5)
 
@@ -304,8 +326,16 @@ class C12(Property):
             slot = None
             if inv.get('pos') in ('origin-name', 'sul-id', 'hdr-id', 'channel-name'):
                 slot = inv['pos']
-            elif inv['k'] in ('int-range', 'nonfinite-int'):
+            elif inv['k'] in ('int-range', 'nonfinite-int', 'uvari-nonint'):
                 slot = 'origin-attr:' + inv['attr']
+            elif inv['k'] == 'dtime-range':
+                slot = 'origin-attr:creation_time'
+            elif inv['k'] == 'vrl-invalid':
+                slot = 'vrl'
+            elif inv['k'] == 'hdr-seq':
+                slot = 'hdr-seq'
+            elif inv['k'] == 'hdr-ident':
+                slot = 'hdr-ident'
             elif inv['k'] in ('sul-seq', 'sul-id-long'):
                 slot = 'sul-seq' if inv['k'] == 'sul-seq' else 'sul-id'
             elif inv['k'] == 'hdr-id-long':
@@ -314,7 +344,11 @@ class C12(Property):
                 slots[slot] = n
         invs = [inv for n, inv in enumerate(invs)
                 if not ((inv.get('pos') in ('origin-name', 'sul-id', 'hdr-id', 'channel-name') and slots[inv['pos']] != n)
-                        or (inv['k'] in ('int-range', 'nonfinite-int') and slots['origin-attr:' + inv['attr']] != n)
+                        or (inv['k'] in ('int-range', 'nonfinite-int', 'uvari-nonint')
+                            and slots['origin-attr:' + inv['attr']] != n)
+                        or (inv['k'] == 'dtime-range' and slots['origin-attr:creation_time'] != n)
+                        or (inv['k'] in ('vrl-invalid', 'hdr-seq', 'hdr-ident')
+                            and slots[{'vrl-invalid': 'vrl'}.get(inv['k'], inv['k'])] != n)
                         or (inv['k'] == 'sul-seq' and slots['sul-seq'] != n)
                         or (inv['k'] == 'sul-id-long' and slots['sul-id'] != n)
                         or (inv['k'] == 'hdr-id-long' and slots['hdr-id'] != n))]
